@@ -120,6 +120,27 @@ def handle (args : List Sexp) : String :=
     match parseShapes ps, ax.asInt? with
     | some ps, some ax => showOptShape (npCatShape ps ax)
     | _, _ => "err bad-args"
+  | [.atom "fdprod", ps, ds] =>
+    match parseParams ps, ds.asList?.bind (·.mapM parseDom) with
+    | some ps, some ds =>
+      match fdGetsliceProduct ps ds with
+      | .ok (.arr d) => "ok (arr " ++ showDom d ++ ")"
+      | .ok (.prod l) => "ok (prod " ++ " ".intercalate (l.map showDom) ++ ")"
+      | .error e => "ok (raise " ++ showErr e ++ ")"
+    | _, _ => "err bad-args"
+  | [.atom "contraction", op, ds] =>
+    match op.asStr?, ds.asList?.bind (·.mapM parseDom) with
+    | some op, some ds => showR (contractionOutput op ds)
+    | _, _ => "err bad-args"
+  | [.atom "nested", .atom side, op, ds] =>
+    match op.asStr?, ds.asList?.bind (·.mapM parseDom) with
+    | some op, some ds =>
+      showR (if side == "left" then leftNested (assocTy op) ds else rightNested (assocTy op) ds)
+    | _, _ => "err bad-args"
+  | [.atom "cinputs", bound, ts] =>
+    match bound.asStrs?, ts.asList?.bind (·.mapM Sexp.asStrs?) with
+    | some b, some ts => "ok " ++ toString (Sexp.list ((contractionInputs b ts).map Sexp.str))
+    | _, _ => "err bad-args"
   | [.atom "np", .atom "index", .list (.atom "idx" :: parts), sh] =>
     match parts.mapM parsePart, sh.asNats? with
     | some idx, some sh => showOptShape (npIndexShape idx sh)
